@@ -201,8 +201,36 @@ def runtime(variant):
     return obj
 
 
+def gen_headers():
+    """Struct member lists for field-wise comparison, generated from the working tree's mjdata.h so that
+    adding or renaming a member neither breaks nor blinds a check."""
+    import re
+    gdir = os.path.join(BUILD, "gen")
+    os.makedirs(gdir, exist_ok=True)
+    txt = open(os.path.join(REPO, "include/mujoco/mjdata.h")).read()
+    out = ["// generated by vbuild from include/mujoco/mjdata.h", "#pragma once"]
+    for st in ("mjContact", "mjWarningStat", "mjTimerStat", "mjSolverStat"):
+        m = re.search(r"struct\s+%s_\s*\{(.*?)\}\s*%s\s*;" % (st, st), txt, re.S)
+        names = []
+        if m:
+            for line in m.group(1).split("\n"):
+                line = line.split("//")[0].strip()
+                mm = re.match(r"^[A-Za-z_][A-Za-z0-9_ \*]*?\b([A-Za-z_][A-Za-z0-9_]*)\s*(\[[^;]*\])?\s*;$", line)
+                if mm:
+                    names.append(mm.group(1))
+        out.append("#define VGEN_%s_FIELDS %s" % (st.upper(), " ".join("X(%s)" % n for n in names)))
+    new = "\n".join(out) + "\n"
+    path = os.path.join(gdir, "structs_gen.h")
+    if not os.path.exists(path) or open(path).read() != new:
+        with open(path + ".tmp", "w") as f:
+            f.write(new)
+        os.replace(path + ".tmp", path)
+    return gdir
+
+
 def driver(variant, src, name=None, extra_src=(), link_lib=True, extra_flags=()):
     """Compile a harness source with the variant's flags and link it with the library."""
+    extra_flags = list(extra_flags) + ["-I" + gen_headers()]
     vdir = os.path.join(BUILD, variant)
     os.makedirs(vdir, exist_ok=True)
     name = name or os.path.splitext(os.path.basename(src))[0]
@@ -213,7 +241,7 @@ def driver(variant, src, name=None, extra_src=(), link_lib=True, extra_flags=())
     deps = srcs + glob.glob(os.path.join(VERIF, "drivers", "*.h")) + ([libp] if libp else [])
     sim = variant.startswith("sim")
     rt = runtime(variant) if sim else None
-    key = _hash_files(deps + ([rt] if rt else [])) + header_hash() + " ".join(extra_flags) + variant
+    key = _hash_files(deps + ([rt] if rt else []) + [os.path.join(BUILD, "gen", "structs_gen.h")]) + header_hash() + _norm(" ".join(extra_flags)) + variant
     keyf = out + ".key"
     if os.path.exists(out) and os.path.exists(keyf) and open(keyf).read() == key:
         return out
